@@ -10,7 +10,11 @@ def items():
 
 def run(tier='quick', seed=0, only=None):
     its = [i for i in items() if not only or only in i.cid]
-    return runner.run_property(PID, its, tier=tier, seed=seed, level='proof',
+    bounded = []
+    if not only:
+        from bounded import secretkeys as _b
+        bounded = [_b.component]
+    return runner.run_property(PID, its, bounded=bounded, tier=tier, seed=seed, level='proof',
                                trusted_base=['pyvc symbolic executor', 'z3 5.1 / cvc5 1.0.3'],
                                assumptions=['cipher (symenc._encrypt/_decrypt), SHA-1 and os.urandom are externals: uninterpreted / ghost randomness stream',
                                             'String2Key.derive_key is used through its contract (proved in C12)'])
